@@ -173,7 +173,9 @@ def script_rc_create(ex):
     name0 = I.read_field(rc, 'name')
     try:
         I.call(RC.create, [rc], {})
+        lib.oblige_one_writer_txn(I, 'C19.rc_create')
     except PyRaise as pr:
+        lib.oblige_one_writer_txn(I, 'C19.rc_create')
         ex.oblige('C19.create.raises.class', issubclass(pr.exc.cls, (
             exception.ObjectActionError, exception.ResourceClassExists,
             exception.MaxDBRetriesExceeded)), 'C',
@@ -207,7 +209,9 @@ def script_rc_destroy(ex):
     rid = I.read_field(rc, 'id')
     try:
         I.call(RC.destroy, [rc], {})
+        lib.oblige_one_writer_txn(I, 'C19.rc_destroy')
     except PyRaise as pr:
+        lib.oblige_one_writer_txn(I, 'C19.rc_destroy')
         ex.oblige('C19.rc_destroy.raises.class', issubclass(pr.exc.cls, (
             exception.ObjectActionError, exception.ResourceClassInUse,
             exception.ResourceClassCannotDeleteStandard, exception.NotFound)),
@@ -239,7 +243,9 @@ def script_rc_save(ex):
     ex.assume(z3.Or(rid.none, z3.Select(t0.exists, rid.t)))
     try:
         I.call(RC.save, [rc], {})
+        lib.oblige_one_writer_txn(I, 'C19.rc_save')
     except PyRaise as pr:
+        lib.oblige_one_writer_txn(I, 'C19.rc_save')
         ex.oblige('C19.rc_save.raises.class', issubclass(pr.exc.cls, (
             exception.ObjectActionError, exception.ResourceClassExists,
             exception.ResourceClassCannotUpdateStandard)),
@@ -270,7 +276,9 @@ def script_trait_destroy(ex):
         z3.Select(t0.data['name'], tid.t) == name.t)))
     try:
         I.call(TRAIT.destroy, [tr], {})
+        lib.oblige_one_writer_txn(I, 'C19.trait_destroy')
     except PyRaise as pr:
+        lib.oblige_one_writer_txn(I, 'C19.trait_destroy')
         ex.oblige('C19.trait_destroy.raises.class', issubclass(pr.exc.cls, (
             exception.ObjectActionError, exception.TraitInUse,
             exception.TraitCannotDeleteStandard, exception.TraitNotFound)),
